@@ -22,6 +22,8 @@ def gen_long(rng, max_digits, max_exp):
             t += "%"
         return t
     nd = rng.choice([1, 2, 5, 17, 40, rng.randint(1, max_digits)])
+    if rng.random() < 0.003:
+        nd = rng.choice([600, 1000, 1500])        # a few very long ones
     i = "".join(rng.choice("0123456789") for _ in range(nd))
     if rng.random() < 0.3:
         i = "0" * rng.randint(1, 5) + i
